@@ -205,15 +205,16 @@ func runC09(c *Ctx) {
 	r := c.R
 	for i := 0; i < c.N; i++ {
 		uc := defaultUDPCase(r)
-		uc.logic = []string{"ok", "ok", "ok", "ok", "client", "internal"}[r.Intn(6)]
+		uc.logic = []string{"ok", "ok", "ok", "ok", "client", "internal", "wrapped"}[r.Intn(7)]
 		uc.interval = []int64{0, 1, 999999999, 1e9, 1800e9, 1801e9 + 5, (1 << 32) * 1e9, (1<<32 + 7) * 1e9, 1<<63 - 1}[r.Intn(9)]
 		uc.complete, uc.incomp = uint32(r.U64()>>uint(r.Intn(33))), uint32(r.U64()>>uint(r.Intn(33)))
 		uc.c0, uc.s0, uc.i0 = uint32(r.U64()>>uint(r.Intn(33))), uint32(r.U64()>>uint(r.Intn(33))), uint32(r.U64()>>uint(r.Intn(33)))
 		uc.p4, uc.p6 = nil, nil
-		for j := r.Pick(0, 1, 2, 5, 50, 100); j > 0; j-- {
+		// peer counts around every size a datagram limit could cut at (MTU 1500/1472/1280, 512, 64 KiB)
+		for j := r.Pick(0, 1, 2, 5, 50, 100, 80, 81, 82, 200, 242, 243, 244, 300); j > 0; j-- {
 			uc.p4 = append(uc.p4, r.Bytes(6))
 		}
-		for j := r.Pick(0, 1, 2, 5, 50); j > 0; j-- {
+		for j := r.Pick(0, 1, 2, 5, 50, 27, 28, 69, 70, 80, 81, 82, 100, 200); j > 0; j-- {
 			uc.p6 = append(uc.p6, r.Bytes(18))
 		}
 		if r.Intn(3) != 0 {
